@@ -126,9 +126,13 @@ fn write_replay(dir: &Path, r: &ViolRec) -> PathBuf {
 
 /// Used by watchdogs: report a violation found by a timeout and leave at once (the offending
 /// computation cannot be cancelled).
-fn emergency_violation(dir: &Path, prop: u8, tier: &str, seed: i64, spec_json: &str, msg: &str) -> ! {
+fn emergency_violation(dir: &Path, prop: u8, tier: &str, seed: i64, spec_json: &str, msg: &str, job: Option<(String, Value)>) -> ! {
     let spec: graphs::Spec = serde_json::from_str(spec_json).unwrap_or(graphs::Spec { n: 0, edges: vec![], decl: vec![] });
-    let rec = ViolRec { prop, msg: msg.to_string(), spec: spec.clone(), cfg: explore::JobCfg::B("rank_pops".into()), choices: vec![], trace: vec![], result: String::new() };
+    let cfg = match job {
+        Some((text, j)) => explore::JobCfg::H(text, j),
+        None => explore::JobCfg::B("rank_pops".into()),
+    };
+    let rec = ViolRec { prop, msg: msg.to_string(), spec: spec.clone(), cfg, choices: vec![], trace: vec![], result: String::new() };
     let p = write_replay(dir, &rec);
     let ev = json!({
         "property_id": format!("C{prop:02}"),
@@ -159,6 +163,27 @@ fn check(id: u8, tier: &str) -> i32 {
     let mut st = Stats::default();
     let mut log: Vec<Value> = vec![];
     eprintln!("fgv: checking C{id:02} tier={tier} threads={}", explore::threads());
+    {
+        // a single execution that runs for more than FGV_EXEC_LIMIT_S (default 60 s) means a poll
+        // of the subject does not return: C04 / C05 report it, other checks stop with exit 2
+        let limit_ms = 1000 * std::env::var("FGV_EXEC_LIMIT_S").ok().and_then(|s| s.parse::<u64>().ok()).unwrap_or(60);
+        let dir2 = dir.clone();
+        let tier2 = tier.to_string();
+        std::thread::spawn(move || loop {
+            std::thread::sleep(std::time::Duration::from_millis(500));
+            if let Some((desc, ms)) = explore::watch_stuck(limit_ms) {
+                let v: Value = serde_json::from_str(&desc).unwrap_or(json!({}));
+                let text = v["text"].as_str().unwrap_or("").to_string();
+                let is_stream = v["job"]["engine"].as_str() == Some("C");
+                if (id == 4 && !is_stream) || (id == 5 && is_stream) {
+                    emergency_violation(&dir2, id, &tier2, seed, &v["graph"].to_string(), &format!("one poll of the subject has been running for {} s: the call neither returns nor yields ({text})", ms / 1000), Some((text.clone(), v["job"].clone())));
+                } else {
+                    eprintln!("MACHINERY: an execution has been running for {} s ({text}); a poll of the subject does not return - C04/C05 report this, this check cannot continue", ms / 1000);
+                    std::process::exit(2);
+                }
+            }
+        });
+    }
     match id {
         1 | 2 | 3 | 4 | 5 | 6 | 7 | 8 | 9 | 10 => {
             let (spaces, focus) = match id {
@@ -196,7 +221,7 @@ fn check(id: u8, tier: &str) -> i32 {
             std::thread::spawn(move || loop {
                 std::thread::sleep(std::time::Duration::from_millis(250));
                 if let Some((spec_json, secs)) = props_build::watch_overdue(limit) {
-                    emergency_violation(&dir2, 18, &tier2, seed, &spec_json, &format!("build() still running after {secs:.0} s (limit {} s)", limit.as_secs()));
+                    emergency_violation(&dir2, 18, &tier2, seed, &spec_json, &format!("build() still running after {secs:.0} s (limit {} s)", limit.as_secs()), None);
                 }
             });
             props_build::run_build_props(id, tier, deadline, &mut st, &mut log)
